@@ -104,6 +104,7 @@ type tokenSpec struct {
 	Sub     string
 	Jti     string
 	Variant int
+	Groups  int // number of group names in a "groups" claim (large tokens)
 }
 
 func signRS256(k *rsa.PrivateKey, input string) []byte {
@@ -146,6 +147,13 @@ func mintID(ts tokenSpec) (tok string, sigOK bool) {
 	}
 	if ts.Nonce != nil {
 		claims["nonce"] = ts.Nonce
+	}
+	if ts.Groups > 0 {
+		gs := make([]string, ts.Groups)
+		for i := range gs {
+			gs[i] = fmt.Sprintf("cn=group-%04d,ou=teams,dc=example", i)
+		}
+		claims["groups"] = gs
 	}
 	payload := jsonSeg(claims)
 	hdr := func(alg, kid string) string {
